@@ -116,6 +116,14 @@ func suiteCrash(rn *runner, r *rng, tier string) {
 	if tier == "thorough" {
 		n = 120000
 	}
+	// handle chains (suite_chain.go): one handle kept by value across rejected and accepted documents
+	nh := 150
+	if tier == "thorough" {
+		nh = 4000
+	}
+	for i := 0; i < nh; i++ {
+		handleChainCase(rn, r.fork(), 3+r.intn(8), "crash")
+	}
 	var reuse *simdjson.ParsedJson
 	baseG := runtime.NumGoroutine()
 	var slowest time.Duration
@@ -264,6 +272,15 @@ func suiteCrash(rn *runner, r *rng, tier string) {
 
 // C15: histories on one reused object; every call must behave like a call without reuse (the model has no reuse)
 func suiteReuse(rn *runner, r *rng, tier string) {
+	{
+		nh := 150
+		if tier == "thorough" {
+			nh = 4000
+		}
+		for i := 0; i < nh; i++ {
+			handleChainCase(rn, r.fork(), 3+r.intn(8), "reuse")
+		}
+	}
 	n := 500
 	if tier == "thorough" {
 		n = 12000
